@@ -404,6 +404,25 @@ func runC08(c *Ctx) {
 					}, uf, "-")
 				}
 			}
+			// the same limits on the copy route: an over-long destination key, and overriding metadata
+			// above the limit, are refused like the PUT they amount to
+			if prior == "absent" {
+				s.Put(bucket, "frame/copy-source", body, drv.H("x-amz-meta-src", "1"))
+				for _, kl := range []int{1025, 2000} {
+					key := strings.Repeat("c", kl)
+					runFramed(fmt.Sprintf("copy-to-key-%d-bytes", kl), "reject", prior, key, nil, func() *drv.Resp {
+						return s.Copy(bucket, "frame/copy-source", bucket, key)
+					}, nil, "-")
+				}
+				ckey := "frame/copy-dest"
+				runFramed("copy-with-metadata-too-large", "reject", prior, ckey, nil, func() *drv.Resp {
+					return s.Do(&drv.Req{Method: "PUT", Path: drv.ObjPath(bucket, ckey), Header: drv.H("x-amz-copy-source", drv.CopySourceEscape(bucket, "frame/copy-source"), "x-amz-meta-big", strings.Repeat("m", 6000))})
+				}, nil, "-")
+				runFramed("copy-of-missing-source", "reject", prior, ckey, nil, func() *drv.Resp {
+					return s.Copy(bucket, "frame/no-such-source", bucket, ckey)
+				}, nil, "-")
+				s.Delete(bucket, "frame/copy-source")
+			}
 			// the limit is in bytes of the UTF-8 encoding: multi-byte keys over 1024 bytes but under 1024 characters
 			for _, mk := range []struct{ name, key string }{
 				{"key-1026-bytes-513-chars", strings.Repeat("é", 513)},
